@@ -346,6 +346,32 @@ def steer(cls, mid, payload, ck):
     return bytes(p)
 
 
+def colliding_frames(rng, cls, mid, plen, want=2, cap=600000):
+    """pairs of DIFFERENT well-formed frames of one message (same length) that collide under the cheap 32-bit digests code tends to key
+    caches with - crc32 / adler32 of the whole frame and of the payload - found by birthday search (about 2^16.5 random payloads per
+    crc32 pair).  Returns {digest name: [(frameA, frameB), ...]}"""
+    import zlib
+
+    fns = {"crc32-frame": lambda f: zlib.crc32(f), "crc32-payload": lambda f: zlib.crc32(f[6:-2]),
+           "adler32-frame": lambda f: zlib.adler32(f), "adler32-payload": lambda f: zlib.adler32(f[6:-2])}
+    seen = {k: {} for k in fns}
+    out = {k: [] for k in fns}
+    n = 0
+    while n < cap and any(len(v) < want for v in out.values()):
+        n += 1
+        f = frame(cls, mid, rng.randbytes(plen))
+        for k, fn in fns.items():
+            if len(out[k]) >= want:
+                continue
+            h = fn(f)
+            g = seen[k].get(h)
+            if g is None:
+                seen[k][h] = f
+            elif g != f:
+                out[k].append((g, f))
+    return out
+
+
 STEER_TARGETS = (b"\r\n", b"\n\r", b"\x00\x00", b"\xff\xff", b"\xb5\x62", b"$G", b"\xd3\x00", b"\n\n", b"*7")
 
 
